@@ -588,6 +588,7 @@ ErrorCode Library::write_oas(const char* filename, double circle_tolerance,
     if (err != ErrorCode::NoError) error_code = err;
 
     Map<uint64_t> cell_name_map = {};
+    bool cell_name_table_strict = true;
     Map<uint64_t> cell_offset_map = {};
     Map<uint64_t> text_string_map = {};
     bool write_cell_offsets = state.config_flags & OASIS_CONFIG_PROPERTY_CELL_OFFSET;
@@ -682,6 +683,8 @@ ErrorCode Library::write_oas(const char* filename, double circle_tolerance,
             }
             const char* name_ = (ref->type == ReferenceType::Cell) ? ref->cell->name : ref->name;
             bool reference_exists = cell_name_map.has_key(name_);
+            // An inline cell name is not allowed with a strict cell-name table
+            if (!reference_exists) cell_name_table_strict = false;
             uint8_t info = reference_exists ? 0xF0 : 0xB0;
             bool has_repetition = ref->repetition.get_count() > 1;
             if (has_repetition) info |= 0x08;
@@ -872,7 +875,7 @@ ErrorCode Library::write_oas(const char* filename, double circle_tolerance,
     if (out.crc32 || out.checksum32) pad_len -= 4;
 
     // Table offsets
-    oasis_putc(1, out);
+    oasis_putc(cell_name_table_strict ? 1 : 0, out);
     oasis_write_unsigned_integer(out, cell_name_offset);
     oasis_putc(1, out);
     oasis_write_unsigned_integer(out, text_string_offset);
